@@ -58,7 +58,7 @@ class AllocGen:
                 self.refs.append(nm)
                 self.site_of[nm] = [self.site_of[a], self.site_of[b]]
                 self.joins.append(nm)
-                return {"k": "select", "name": nm, "cond": r.choice([0, 1]), "a": a, "b": b}
+                return {"k": "select", "name": nm, "cond": r.choice([0, 1]), "a": a, "b": b, "via": r.choice(["select", "select", "if", "for"]), "trips": r.choice([0, 1, 2])}
         if k == "alloc":
             nm = self.fresh("b")
             el = r.choice(list(ELB))
@@ -128,7 +128,22 @@ def emit(ast, p=(0, 0)) -> str:
             elif k == "cast":
                 e(ind, f'{s["name"]} = builtin.unrealized_conversion_cast {s["src"]} : {T[s["src"]]} to {T[s["name"]]}')
             elif k == "select":
-                e(ind, f'{s["name"]} = arith.select %p{s["cond"]}, {s["a"]}, {s["b"]} : {T[s["name"]]}')
+                if s.get("via") == "if":
+                    # the same join through the results of an scf.if: the buffers leave the regions through scf.yield
+                    ty = T[s["name"]]
+                    e(ind, f'{s["name"]} = scf.if %p{s["cond"]} -> ({ty}) {{')
+                    e(ind + 1, f'scf.yield {s["a"]} : {ty}')
+                    e(ind, "} else {")
+                    e(ind + 1, f'scf.yield {s["b"]} : {ty}')
+                    e(ind, "}")
+                elif s.get("via") == "for":
+                    # a loop-carried buffer: the loop result is %a after zero trips, %b otherwise
+                    ty = T[s["name"]]
+                    e(ind, f'{s["name"]} = scf.for %q{s["name"][1:]} = %c0 to %c{s["trips"]} step %c1 iter_args(%m{s["name"][1:]} = {s["a"]}) -> ({ty}) {{')
+                    e(ind + 1, f'scf.yield {s["b"]} : {ty}')
+                    e(ind, "}")
+                else:
+                    e(ind, f'{s["name"]} = arith.select %p{s["cond"]}, {s["a"]}, {s["b"]} : {T[s["name"]]}')
             elif k == "use":
                 sites = ", ".join(f"{x} : i64" for x in (joined.get(b, x_) for b, x_ in zip(s["bufs"], s["sites"])))
                 e(ind, f'"test.op"({", ".join(s["bufs"])}) {{vtag = {s["tag"]} : i64, vsites = [{sites}]}} : ({", ".join(T[b] for b in s["bufs"])}) -> ()')
@@ -153,7 +168,8 @@ def emit(ast, p=(0, 0)) -> str:
             elif s["k"] in ("view", "cast"):
                 site_of_name[s["name"]] = site_of_name.get(s["src"])
             elif s["k"] == "select":
-                site_of_name[s["name"]] = site_of_name.get(s["a"] if p[s["cond"]] else s["b"])
+                first = (s["trips"] == 0) if s.get("via") == "for" else p[s["cond"]]
+                site_of_name[s["name"]] = site_of_name.get(s["a"] if first else s["b"])
                 joined[s["name"]] = site_of_name[s["name"]]
             for key in ("body", "then", "else"):
                 scan(s.get(key, []))
